@@ -1,4 +1,9 @@
+use anyhow::anyhow;
 use bytes::{Buf, BufMut, Bytes, BytesMut};
+use selium_std::errors::{CodecError, Result, SeliumError};
+use std::mem::size_of;
+
+const LEN_MARKER_SIZE: usize = size_of::<u64>();
 
 pub fn encode_message_batch(batch: Vec<Bytes>) -> Bytes {
     let mut bytes = BytesMut::new();
@@ -14,15 +19,39 @@ pub fn encode_message_batch(batch: Vec<Bytes>) -> Bytes {
     bytes.into()
 }
 
-pub fn decode_message_batch(mut bytes: Bytes) -> Vec<Bytes> {
+pub fn decode_message_batch(mut bytes: Bytes) -> Result<Vec<Bytes>> {
+    // The batch comes from the network: never trust its count or lengths
+    if bytes.len() < LEN_MARKER_SIZE {
+        return Err(malformed_batch("missing message count"));
+    }
+
     let num_of_messages = bytes.get_u64();
+
+    // Every message occupies at least its length marker, which bounds the count
+    if num_of_messages > (bytes.len() / LEN_MARKER_SIZE) as u64 {
+        return Err(malformed_batch("message count exceeds batch size"));
+    }
+
     let mut messages = Vec::with_capacity(num_of_messages as usize);
 
     for _ in 0..num_of_messages {
+        if bytes.len() < LEN_MARKER_SIZE {
+            return Err(malformed_batch("missing message length"));
+        }
+
         let message_len = bytes.get_u64();
+
+        if message_len > bytes.len() as u64 {
+            return Err(malformed_batch("message length exceeds batch size"));
+        }
+
         let message_bytes = bytes.split_to(message_len as usize);
         messages.push(message_bytes);
     }
 
-    messages
+    Ok(messages)
+}
+
+fn malformed_batch(reason: &'static str) -> SeliumError {
+    CodecError::DecodeFailure(anyhow!("Malformed message batch: {reason}")).into()
 }
